@@ -121,32 +121,44 @@ mod imp {
         static FAILED: RefCell<Vec<String>> = const { RefCell::new(Vec::new()) };
         static ASSUME_BAD: RefCell<bool> = const { RefCell::new(false) };
     }
-    pub fn parse_value(s: &str) -> Decimal {
+    pub fn parse_value(s: &str) -> Option<Decimal> {
         if let Some((n, d)) = s.split_once('/') {
-            let n = Decimal::from_str(n.trim()).expect("numerator");
-            let d = Decimal::from_str(d.trim()).expect("denominator");
-            n / d
+            let n = Decimal::from_str(n.trim()).ok()?;
+            let d = Decimal::from_str(d.trim()).ok()?;
+            n.checked_div(d)
         } else {
-            Decimal::from_str(s.trim()).expect("decimal value")
+            Decimal::from_str(s.trim()).ok()
         }
     }
     pub fn set_values(v: &serde_json::Value) {
+        ASSUME_BAD.with(|a| *a.borrow_mut() = false);
         VALUES.with(|m| {
             let mut m = m.borrow_mut();
             m.clear();
             if let Some(o) = v.as_object() {
                 for (k, x) in o {
                     if let Some(s) = x.as_str() {
-                        m.insert(k.clone(), parse_value(s));
+                        match parse_value(s) {
+                            Some(d) => {
+                                m.insert(k.clone(), d);
+                            }
+                            // a value the real Decimal cannot hold: the record is outside the replayable domain
+                            None => ASSUME_BAD.with(|a| *a.borrow_mut() = true),
+                        }
                     }
                 }
             }
         });
         FAILED.with(|f| f.borrow_mut().clear());
-        ASSUME_BAD.with(|a| *a.borrow_mut() = false);
     }
     pub fn fresh(name: &str) -> Decimal {
-        VALUES.with(|m| *m.borrow().get(name).unwrap_or_else(|| panic!("replay record has no value for input {name}")))
+        VALUES.with(|m| match m.borrow().get(name) {
+            Some(d) => *d,
+            None => {
+                ASSUME_BAD.with(|a| *a.borrow_mut() = true);
+                Decimal::ONE
+            }
+        })
     }
     fn note(ok: bool, l: &str, a: Decimal, b: Decimal) -> B {
         if !ok {
